@@ -519,6 +519,31 @@ func (f *frame) loopEnv(li *loopInfo, b *ssa.BasicBlock, predIdx int, st *State)
 		}
 		return Val{}, false
 	}
+	env.outer = func(name string) (Val, bool) {
+		var best *ssa.BasicBlock
+		var bestVal ssa.Value
+		for h, oli := range f.loops {
+			if h == b || !oli.blocks[b] {
+				continue
+			}
+			for _, ins := range h.Instrs {
+				phi, ok := ins.(*ssa.Phi)
+				if !ok {
+					break
+				}
+				if phi.Comment == name && (best == nil || best.Dominates(h)) {
+					best, bestVal = h, phi
+				}
+			}
+		}
+		if bestVal == nil {
+			return Val{}, false
+		}
+		if _, done := f.vals[bestVal]; !done {
+			return Val{}, false
+		}
+		return f.val(bestVal), true
+	}
 	return env
 }
 
@@ -607,6 +632,14 @@ func (vc *VC) assertHeapWF(st *State, pats []modPat) {
 		h := st.H[srt]
 		wf := map[string]string{"Loc": "wf-loc", "Slice": "wf-slice", "Iface": "wf-iface"}[srt]
 		vc.assert(fmt.Sprintf("(forall ((l! Loc)) (! (%s (select %s l!) %s) :pattern ((select %s l!))))", wf, h, st.Top, h))
+	}
+	// a map has between 0 and 2^40 entries
+	for _, key := range vc.extraOrder {
+		if key != "MC" || (pats != nil && !patsTouch(pats, key)) {
+			continue
+		}
+		h := vc.heapOf(st, key)
+		vc.assert(fmt.Sprintf("(forall ((l! Loc)) (! (and (<= 0 (select %s l!)) (<= (select %s l!) 1099511627776)) :pattern ((select %s l!))))", h, h, h))
 	}
 	// values stored in maps are well-formed references too
 	for _, key := range vc.extraOrder {
